@@ -218,7 +218,9 @@ var badDecl = func(i int) (string, string) {
 
 func aggPackages(tier string) []agg {
 	var out []agg
-	patterns := []string{"B", "GB", "BG", "GBG", "BB", "GBBG", "BGB", "BBB", "GBGBG", "BGBGB"}
+	// B: bad declarations with different offending statements; b: bad declarations that all fail for the
+	// same reason on the same statement text (an error list de-duplicated by message loses them)
+	patterns := []string{"B", "GB", "BG", "GBG", "BB", "GBBG", "BGB", "BBB", "GBGBG", "BGBGB", "bb", "bGb", "bbb", "GbGbG", "bB"}
 	if tier == "thorough" {
 		patterns = append(patterns, "GGBBB", "BBBGG", "BGGB", "GBGBGB")
 	}
@@ -235,6 +237,11 @@ func aggPackages(tier string) []agg {
 					gi++
 					units = append(units, [2]string{n, c})
 					good = append(good, n)
+				} else if ch == 'b' {
+					n := fmt.Sprintf("Bad%d", bi)
+					bi++
+					units = append(units, [2]string{n, fmt.Sprintf("func %s(x uint64) uint64 {\n%s}\n", n, badBodies[0])})
+					bad = append(bad, n)
 				} else {
 					n, c := badDecl(bi)
 					bi++
@@ -418,6 +425,65 @@ func part2(tier, goose, work string, acc *ev.Acc, only string) {
 			acc.Violate(ev.Violation{Key: "C07/aggregation/two-packages", Msg: fmt.Sprintf("two packages with %d and %d bad declarations translated together: exit %d, %d errors reported: %s", len(a1.Bad), len(a2.Bad), code, n, first(stderr, 20)), Replay: map[string]any{"part": 2, "package": "pair"}})
 		}
 	}
+	// packages at the edge (accepted today, candidates for new checks): whatever goose says must be structured
+	shapes := map[string]string{
+		"two_inits":          "package q\n\nvar G uint64 = 1\n\nfunc init() {\n\tuse()\n}\n\nfunc init() {\n\tuse()\n\tuse()\n}\n\nfunc use() uint64 {\n\treturn G\n}\n",
+		"mangling_clash":     "package q\n\ntype A struct {\n\tv uint64\n}\n\nfunc (a A) b__c(k uint64) uint64 {\n\treturn a.v + k\n}\n\ntype A__b struct {\n\tv uint64\n}\n\nfunc (a A__b) c(k uint64) uint64 {\n\treturn a.v + k + 1\n}\n",
+		"method_vs_func":     "package q\n\ntype T struct {\n\tv uint64\n}\n\nfunc (t T) M(k uint64) uint64 {\n\treturn t.v + k\n}\n\nfunc T__M(k uint64) uint64 {\n\treturn k\n}\n",
+		"two_blank_vars":     "package q\n\nvar _ uint64 = 1\n\nvar _ uint64 = 2\n\nfunc F() uint64 {\n\treturn 3\n}\n",
+		"two_blank_funcs":    "package q\n\nfunc _() uint64 {\n\treturn 1\n}\n\nfunc _() uint64 {\n\treturn 2\n}\n\nfunc F() uint64 {\n\treturn 3\n}\n",
+		"const_and_func":     "package q\n\nconst K uint64 = 1\n\nfunc F() uint64 {\n\treturn K\n}\n\ntype K2 struct {\n\tv uint64\n}\n\nfunc K2__get() uint64 {\n\treturn 2\n}\n\nfunc (k K2) get() uint64 {\n\treturn k.v\n}\n",
+		"same_bad_two_files": "",
+	}
+	var shapeNames []string
+	for n := range shapes {
+		shapeNames = append(shapeNames, n)
+	}
+	sort.Strings(shapeNames)
+	for _, n := range shapeNames {
+		if only != "" {
+			break
+		}
+		src := shapes[n]
+		if n == "same_bad_two_files" {
+			write(mod, "shape_"+n+"/a.go", "package q\n\nfunc Height(x uint64) uint64 {\n"+badBodies[0]+"}\n\nfunc Width(x uint64) uint64 {\n"+badBodies[0]+"}\n")
+			write(mod, "shape_"+n+"/b.go", "package q\n\nfunc Scale(x uint64) uint64 {\n"+badBodies[0]+"}\n\nfunc Depth(x uint64) uint64 {\n"+badBodies[1]+"}\n")
+		} else {
+			write(mod, "shape_"+n+"/a.go", src)
+		}
+		for _, ign := range []bool{false, true} {
+			args := []string{"-out", filepath.Join(work, "oshape")}
+			if ign {
+				args = append(args, "-ignore-errors")
+			}
+			code, stderr := runGoose(goose, mod, append(args, "./shape_"+n)...)
+			acc.Add("evaluations", 1)
+			acc.Set("nontrivial", "shape:"+n)
+			bad := ""
+			ncat := len(catLine.FindAllString(stderr, -1))
+			nsrc := len(srcLine.FindAllString(stderr, -1))
+			switch {
+			case code != 0 && code != 1:
+				bad = fmt.Sprintf("exit status %d", code)
+			case code == 0 && strings.TrimSpace(stderr) != "":
+				bad = "exit status 0 but something was reported"
+			case code == 1 && ncat == 0:
+				bad = "exit status 1 without any structured ([category]: ...) error"
+			case code == 1 && nsrc != ncat:
+				bad = fmt.Sprintf("%d structured errors but %d source positions", ncat, nsrc)
+			case code == 1:
+				if m := nErrors.FindStringSubmatch(stderr); m == nil || m[1] != strconv.Itoa(ncat) {
+					bad = fmt.Sprintf("the summary does not say '%d errors' although %d structured errors are listed (an error without category and position?)", ncat, ncat)
+				}
+			}
+			if n == "same_bad_two_files" && bad == "" && ncat != 4 {
+				bad = fmt.Sprintf("%d errors reported for 4 bad declarations (three of them fail on the same statement text)", ncat)
+			}
+			if bad != "" {
+				acc.Violate(ev.Violation{Key: "C07/shape/" + n + "/" + fmt.Sprint(ign), Msg: fmt.Sprintf("package %s (-ignore-errors=%v): %s\n%s", n, ign, bad, first(stderr, 25)), Replay: map[string]any{"part": 2, "package": "shape"}})
+			}
+		}
+	}
 	acc.Sample(map[string]any{"part": "aggregation", "packages": len(aggs), "example": aggs[len(aggs)/2]}, 3)
 }
 
@@ -464,7 +530,7 @@ func main() {
 	os.RemoveAll(work)
 	os.Exit(acc.Done(ev.Finish{
 		Prop: "C07", Tier: *tier, Level: "exploration", Start: start,
-		Rule:        "(1) every construct of the out-of-subset catalogue (C02) plus a family of crash-prone type shapes (named slice / map / pointer types, 5-value destructuring, generics, methods on named integers, interface shapes, arrays, nested containers, defer/select/labels ...) and 12 supported controls at every statement position (quick: 4 positions), each declaration translated and printed separately by the real translator code through the overlay bridge under recover: a foreign panic, an undocumented error category, an error position outside the offending declaration or a declaration with neither error nor output is a violation. (2) packages of good (G) and bad (B) declarations in every pattern of a fixed list (B, GB, BG, GBG, BB, GBBG, BGB, BBB, ...) over 4 file layouts through the real binary with and without -ignore-errors: exit 1, exactly one located error per bad declaration, correct summary, nothing written without -ignore-errors, exactly the good declarations with it; plus two bad packages in one invocation. (3) every single mutation (node x operator: parenthesise, &/* on selector bases and call arguments, literal conversions, := to var, op-assign expansion, ++ to +=, block / if-true / function-literal wrapping of statements) of the shipped example packages (quick: append_log, async; thorough: all of internal/examples), type-checked and translated declaration by declaration in memory; ill-typed mutants are discarded and counted. (4) the real binary on every look-alike package of C02 (user functions named like builtins with the builtin's and with other arities, local packages named like library packages), with and without -ignore-errors: exit status 0 or 1, no Go panic",
+		Rule:        "(1) every construct of the out-of-subset catalogue (C02) plus a family of crash-prone type shapes (named slice / map / pointer types, 5-value destructuring, generics, methods on named integers, interface shapes, arrays, nested containers, defer/select/labels ...) and 12 supported controls at every statement position (quick: 4 positions), each declaration translated and printed separately by the real translator code through the overlay bridge under recover: a foreign panic, an undocumented error category, an error position outside the offending declaration or a declaration with neither error nor output is a violation. (2) packages of good (G) and bad (B) declarations in every pattern of a fixed list (B, GB, BG, GBG, BB, GBBG, BGB, BBB, ...) over 4 file layouts through the real binary with and without -ignore-errors: exit 1, exactly one located error per bad declaration, correct summary, nothing written without -ignore-errors, exactly the good declarations with it; plus two bad packages in one invocation; plus patterns whose bad declarations all fail on the same statement text, and edge packages (several init, name-mangling clashes between methods and functions, several blank declarations): whatever goose answers must be exit 0 with empty stderr or exit 1 with only structured, located errors matching the summary count. (3) every single mutation (node x operator: parenthesise, &/* on selector bases and call arguments, literal conversions, := to var, op-assign expansion, ++ to +=, block / if-true / function-literal wrapping of statements) of the shipped example packages (quick: append_log, async; thorough: all of internal/examples), type-checked and translated declaration by declaration in memory; ill-typed mutants are discarded and counted. (4) the real binary on every look-alike package of C02 (user functions named like builtins with the builtin's and with other arities, local packages named like library packages), with and without -ignore-errors: exit status 0 or 1, no Go panic",
 		Assumptions: []string{"per-declaration translation goes through an overlay-added file in package goose that calls declsOrError and CoqDecl exactly as Decls / File.Write do", "crashes outside declaration translation (package loading, FFI detection) are covered by C08's two-FFI configurations"},
 		Extra:       map[string]any{"distinct_nontrivial": len(acc.Sets["nontrivial"])},
 	}))
